@@ -10,8 +10,8 @@ theorem idx_some_lt (l : List Bytes) (i : Nat) (v : Bytes) (h : idx l i = some v
   have := (List.getElem?_eq_some_iff.mp h).1
   exact this
 
-/-- `ConvertArgs2Flag` can only index out of range when the tail has exactly one element -/
-theorem argsFlag_no_panic (fuel : Nat) (tail : List Bytes) (i : Nat) (h : Hdr) (hl : tail.length ≠ 1) :
+/-- `ConvertArgs2Flag` never indexes out of range (the guard `i+1 >= len(args)` precedes `args[i+1]`) -/
+theorem argsFlag_no_panic (fuel : Nat) (tail : List Bytes) (i : Nat) (h : Hdr) :
     argsFlag fuel tail i h ≠ .panic := by
   induction fuel generalizing i h with
   | zero => simp [argsFlag]
@@ -31,8 +31,8 @@ theorem argsFlag_no_panic (fuel : Nat) (tail : List Bytes) (i : Nat) (h : Hdr) (
            have := (idx_none_iff _ _).mp h1
            omega)
 
-theorem convertArgs2Flag_no_panic (h : Hdr) (tail : List Bytes) (hl : tail.length ≠ 1) :
-    convertArgs2Flag h tail ≠ .panic := argsFlag_no_panic _ _ _ _ hl
+theorem convertArgs2Flag_no_panic (h : Hdr) (tail : List Bytes) :
+    convertArgs2Flag h tail ≠ .panic := argsFlag_no_panic _ _ _ _
 
 /-- `ConvertTextLockAndUnLockCommand` never indexes out of range: the even-length guard makes every `args[i+1]`
 valid and `args[i+2:]` is at worst empty; by induction on the recursion depth (EXECUTE nests the converter). -/
